@@ -128,6 +128,34 @@ struct Stats {
       x = v;
   }
 };
+// HyperLogLog sketches (2^12 registers, standard error about 1.6 %): "how many distinct states /
+// outcomes / interleavings were reached" without keeping them; the driver merges the sketches of all
+// worker processes register-wise.
+struct Hll {
+  static constexpr int P = 12;
+  uint8_t reg[1 << P] = {};
+  void add(uint64_t h) {
+    h = mix64(h);
+    uint32_t idx = uint32_t(h >> (64 - P));
+    uint64_t rest = h << P;
+    uint8_t rank = rest ? uint8_t(__builtin_clzll(rest) + 1) : uint8_t(64 - P + 1);
+    if (rank > reg[idx])
+      reg[idx] = rank;
+  }
+  void merge(const Hll& o) {
+    for (int i = 0; i < (1 << P); i++)
+      if (o.reg[i] > reg[i])
+        reg[i] = o.reg[i];
+  }
+};
+struct Sketches {
+  std::map<std::string, Hll> m;
+};
+extern thread_local Sketches g_sketches;
+inline void sketch(const char* name, uint64_t h) {
+  g_sketches.m[name].add(h);
+}
+
 extern thread_local Stats g_stats;  // per thread; task threads merge into the main thread's at their end
 
 inline void count(const char* k, uint64_t n = 1) {
